@@ -851,17 +851,23 @@ Next:
           return make_error(Error::kInvalidEROrSAE);
         }
 
+        // vcvtsi2sd / vcvtusi2sd define {er} (and thus {sae}) only for a 64-bit integer source - the conversion of a 32-bit
+        // integer to double precision is exact and EVEX.b is reserved in the EVEX.W0 forms.
+        if (ASMJIT_UNLIKELY((inst_id == Inst::kIdVcvtsi2sd || inst_id == Inst::kIdVcvtusi2sd) &&
+                            op_count == 3 && operands[2].is_gp32())) {
+          return make_error(Error::kInvalidEROrSAE);
+        }
+
+        // vcmpsd / vcmpss - {sae} belongs to the EVEX form, whose destination is a mask register; the VEX form with a
+        // vector destination has no {sae} (the EVEX encoding would reinterpret the destination as a mask register).
+        if (ASMJIT_UNLIKELY((inst_id == Inst::kIdVcmpsd || inst_id == Inst::kIdVcmpss) && op_count >= 1 && !operands[0].is_mask_reg())) {
+          return make_error(Error::kInvalidEROrSAE);
+        }
+
         // Check if {sae} or {er} is supported by the instruction.
         if (Support::test(options, InstOptions::kX86_ER)) {
           // NOTE: if both {sae} and {er} are set, we don't care, as {sae} is implied.
           if (ASMJIT_UNLIKELY(!common_info.has_avx512_er())) {
-            return make_error(Error::kInvalidEROrSAE);
-          }
-
-          // vcvtsi2sd / vcvtusi2sd define {er} only for a 64-bit integer source - the conversion of a 32-bit integer
-          // to double precision is exact and EVEX.b is reserved in the EVEX.W0 forms.
-          if (ASMJIT_UNLIKELY((inst_id == Inst::kIdVcvtsi2sd || inst_id == Inst::kIdVcvtusi2sd) &&
-                              op_count == 3 && operands[2].is_gp32())) {
             return make_error(Error::kInvalidEROrSAE);
           }
         }
